@@ -1,18 +1,21 @@
 #!/bin/bash
 # runs ./check all against every seeded change (scratch copy of /repo/src), prints a matrix.
-# uses its own build / evidence / replay directories so that it can run next to other checks
+# 6 workers, each with its own build / evidence / replay directories under .build/matrix/<k>
 cd /verif
-export VERIF_BUILD=/verif/.build/matrix VERIF_EVIDENCE=/verif/.build/matrix/evidence VERIF_REPLAYS=/verif/.build/matrix/replays
-mkdir -p $VERIF_BUILD
-S=/verif/.build/matrix/repo
-for d in seeded/*/; do
-  n=$(basename $d); prop=${n%%_*}
-  rm -rf $S && mkdir -p $S && cp -r /repo/src $S/src
-  if ! (cd $S && patch -p1 -s < /verif/$d/patch.diff >/dev/null 2>&1); then echo "$n PATCH-FAILS"; continue; fi
-  out=$(VERIF_REPO=$S ./check all 2>&1)
+rm -rf .build/matrix; mkdir -p .build/matrix
+one() {
+  n=$1; k=$2; prop=${n%%_*}
+  B=/verif/.build/matrix/$n; S=$B/repo
+  mkdir -p $B; rm -rf $S && mkdir -p $S && cp -r /repo/src $S/src
+  if ! (cd $S && patch -p1 -s < /verif/seeded/$n/patch.diff >/dev/null 2>&1); then echo "$n | PATCH-FAILS"; return; fi
+  out=$(VERIF_BUILD=$B VERIF_EVIDENCE=$B/evidence VERIF_REPLAYS=$B/replays VERIF_REPO=$S ./check all 2>&1)
   viol=$(echo "$out" | grep -o 'VIOLATION property=C[0-9]*' | sed 's/VIOLATION property=//' | sort -u | tr '\n' ' ')
-  und=$(echo "$out" | grep -E 'UNDECIDED property=all' | cut -c1-160)
+  und=$(echo "$out" | grep -E 'UNDECIDED property=all' | cut -c1-140)
   own=$(echo "$out" | grep -q "VIOLATION property=$prop " && echo HIT || echo miss)
-  echo "$n | own=$own | violations: $viol | $und"
-done
-rm -rf $S
+  obl=$(echo "$out" | grep -A40 "VIOLATION property=$prop " | grep 'failed obligation' | head -2 | sed 's/  failed obligation //; s/#.*//' | tr '\n' ';')
+  echo "$n | own=$own | violations: $viol | $und | $obl"
+  rm -rf $B
+}
+export -f one
+ls seeded | awk '{print $1, (NR%6)}' | xargs -P 6 -n 2 bash -c 'one "$0" "$1"' | sort
+rm -rf .build/matrix/*/repo
